@@ -57,9 +57,26 @@ def looks_decimal(h):
         return False
 
 
-def gen_tokens(rng, regime):
-    g = G.ScriptGen(rng, max_ops=8)
-    kind = rng.weighted([(5, "self-contained"), (3, "consuming"), (2, "control"), (1, "single")])
+# tokens whose reading follows from exec's documented rule (DESIGN A.5) but is easy to get wrong:
+# decimals that do not round-trip through %d, or are out of int range, are hex pushes when of even length
+RULE_TOKENS = [("00", "0100"), ("0000", "020000"), ("0100", "020100"), ("0010", "020010"), ("2147483648", "052147483648"),
+               ("99999999999999", "0799999999999999"), ("-1", "4f"), ("16", "60"), ("17", "0111"), ("-16", "0190"), ("-17", "0191"),
+               ("127", "017f"), ("128", "028000"), ("255", "02ff00"), ("256", "020001"), ("32767", "02ff7f"), ("32768", "03008000"),
+               ("2147483647", "04ffffff7f"), ("-2147483647", "04ffffffff"), ("0", "00"), ("TRUE", "51"), ("FALSE", "00"), ("OP_TRUE", "51"),
+               ("CHECKLOCKTIMEVERIFY", "b1"), ("OP_CHECKSEQUENCEVERIFY", "b2")]
+
+
+def gen_tokens(rng, regime, opts=()):
+    g = G.ScriptGen(rng, max_ops=8, allow_disabled=("-z" in opts), pretend=any(o.startswith("--pretend") for o in opts))
+    kind = rng.weighted([(5, "self-contained"), (3, "consuming"), (2, "control"), (1, "single"), (2, "rule")])
+    if kind == "rule":
+        out = []
+        for _ in range(rng.range(1, 3)):
+            t = rng.choice(RULE_TOKENS)
+            out.append([t[0], t[1]])
+        if rng.chance(50):
+            out.append(["OP_SIZE", "82"])
+        return out
     if kind == "self-contained":
         g.build(rng.range(1, 3))
     elif kind == "single":
@@ -76,6 +93,10 @@ def gen_tokens(rng, regime):
         toks = toks[:at] + bad + toks[at:]
     out = []
     for t in toks:
+        if isinstance(t, str) and t.startswith("raw:"):
+            # explicit PUSHDATA forms cannot be typed as an exec token: use the data as a plain hex push
+            d = [x for x in S.decode(bytes.fromhex(t[4:]))][0][2] or b""
+            t = d if len(d) >= 2 else d + b"\xaf\xaf"
         if isinstance(t, (bytes, bytearray)):
             h = bytes(t).hex()
             if looks_decimal(h) or len(t) == 0:
@@ -94,7 +115,7 @@ def gen(rng, tier, idx):
         scn["wrap"] = rng.choice(["p2wsh", "tapscript", "tapscript"])
         scn["wrap_depth"] = rng.range(0, 3)
     scn["regime"] = rng.weighted([(60, "clean"), (25, "fault"), (15, "noise")])
-    scn["tokens"] = gen_tokens(rng, "fault" if (scn["regime"] == "fault" or (scn["regime"] == "noise" and rng.chance(60))) else "clean")
+    scn["tokens"] = gen_tokens(rng, "fault" if (scn["regime"] == "fault" or (scn["regime"] == "noise" and rng.chance(60))) else "clean", scn["opts"])
     scn["k"] = rng.below(1000)
     scn["faults"] = []
     if scn["regime"] == "noise":
@@ -196,6 +217,9 @@ def evaluate_noise(ctx, scn):
         at = 1 + k + len(noise)           # index of the second sync
         runs.append((items, cmds, at, r))
     (ia, ca, xa, ra), (ib, cb, xb, rb) = runs
+    if ra.classify()[0] == "overflow" or rb.classify()[0] == "overflow":
+        ev.counters["inconclusive_log_overflow"] += 1
+        return ev
     if xa + 1 >= len(ca) or xb + 1 >= len(cb) or ca[xa].reply is None or cb[xb].reply is None:
         ev.counters["noise_not_reached"] += 1
         return ev
@@ -249,6 +273,9 @@ def evaluate_splice(ctx, scn):
     ev.counters["term:" + ref.run.classify()[0]] += 1
     if not ref.started:
         ev.counters["ref_not_started"] += 1
+        return ev
+    if ref.crashed:
+        ev.counters["ref_incomplete"] += 1
         return ev
     kk = k                  # position inside the script (for the messages)
     k = k + base            # position in the session: the commitment steps come first
